@@ -954,6 +954,22 @@ def C18(g, tier):
             src2 = [src[0], src[1], src[2], lab]
         m2 = [src2, hgt, w2, x2]
         yield sx(["arrow_new", m2]), True
+        # same flattened incidence, different segmentation: move one entry to the neighbouring edge
+        for side in (0, 1):
+            sz = list(src[side][0][0])
+            cand = [i for i in range(len(sz) - 1) if sz[i] >= 1] + [-(i + 1) for i in range(len(sz) - 1) if sz[i + 1] >= 1]
+            if cand:
+                c = g.r.choice(cand)
+                if c >= 0:
+                    sz[c] -= 1
+                    sz[c + 1] += 1
+                else:
+                    i = -c - 1
+                    sz[i + 1] -= 1
+                    sz[i] += 1
+                src3 = list(src)
+                src3[side] = [[sz, src[side][0][1]], src[side][1]]
+                yield sx(["arrow_new", [src3, hgt, w, x]]), True
         yield sx(["arrow_is_monomorphism", m2]), True
         # non-injective maps between arbitrary graphs
         h1 = g.hg(maxar=2)
